@@ -9,6 +9,7 @@ REGIONS = {
     "macro_redefinition": "macro_redefinition: macros are evaluated eagerly at their definition and only the first definition is emitted (#define X 1 / #define Y (X+10) / #undef X / #define X 2 -> X = 1, Y = 11; C at the end of the header: 2, 12); equals the model's prediction",
     "macro_float_suffix": "macro_float_suffix: the f/l suffix of a floating literal is ignored (1.1f -> f64 1.1; C: (float)1.1 = 1.10000002384185791015625); equals the model's prediction",
     "macro_wide_string": "macro_wide_string: L\"..\"/u\"..\"/U\"..\" string macros are emitted as narrow byte strings; equals the model's prediction",
+    "macro_open_reference": "macro_open_reference: a macro referencing a macro whose body is an unparenthesised binary/?: expression gets the value-substituted result (#define A 1+2 / #define B (A*3) -> B = 9; C: 1+2*3 = 7); equals the model's prediction",
     "macro_fallback_unsigned_wrap": "macro_fallback_unsigned_wrap: with --clang-macro-fallback an unsigned value >= 2^63 is carried as i64 and emitted negative (((unsigned long long)-1) -> i32 = -1); equals the model's prediction",
     "enum_bool_translated": "enum_bool_translated: enum with underlying type bool under --translate-enum-integer-types and a non-Rust style gets repr u8 but bool literals (pub struct E(pub u8); E(false)) -> rustc rejects; equals the model's prediction",
     "wchar_treated_unsigned": "wchar_treated_unsigned: wchar_t (signed int on this target) is treated as unsigned: const wchar_t w = -1 -> `u32 = 18446744073709551615` (rustc rejects), enum E : wchar_t { A = -1 } -> u32 4294967295; equals the model's prediction",
